@@ -174,10 +174,18 @@ inline bool hasHugeExponent(const std::string& s)
       size_t k = i + 1;
       if(s[k] == '+') k++;
       else if(s[k] == '-') continue;
-      while(k < s.size() && s[k] == '0') k++;
-      size_t b = k;
       long v = 0;
-      while(k < s.size() && s[k] >= '0' && s[k] <= '9' && k - b < 12) v = 10 * v + (s[k++] - '0');
+      int nd = 0;
+      // the LP-format reader deletes blanks inside a line before it tokenizes: "1e308 1" is the literal 1e3081
+      for(; k < s.size() && nd < 12; k++)
+      {
+         if(s[k] >= '0' && s[k] <= '9')
+         {
+            v = 10 * v + (s[k] - '0');
+            nd += (v > 0);
+         }
+         else if(s[k] != ' ' && s[k] != '\t') break;
+      }
       if(v > 308) return true;
    }
    return false;
@@ -200,6 +208,14 @@ inline bool hasBadDenominator(const std::string& s)
       if(k > z && !(k < s.size() && s[k] >= '1' && s[k] <= '9')) return true;
    }
    return false;
+}
+// ---- exclusion protocol for known finding `lpf-keyword-bracket-overread` (LPFhasKeyword matches an input ']'
+// against the ']' that closes an optional part of its pattern, e.g. "bound]" against "bound[s]", and then searches the
+// next ']' beyond the end of the pattern string): LP-format text containing ']' is skipped and counted. ']' is no
+// part of the LP-format syntax and not a legal name character.
+inline bool hasClosingBracket(const std::string& s)
+{
+   return s.find(']') != std::string::npos;
 }
 // ---- exclusion protocol for known finding `settings-nan-sigfpe` (std::stod accepts "nan"; NaN passes
 // setRealParam's range test and is assigned to a GMP rational => SIGFPE, cf. S7): true if the text contains "nan"
